@@ -183,6 +183,62 @@ func collectSlots(v any, set func(any), out *[]slot) {
 	}
 }
 
+// dropKey removes one key from one object of the document (schemas rarely mark keys as required).
+func dropKeyVariants(text string) (muts []string, descs []string) {
+	type site struct {
+		path string
+	}
+	var walk func(v any, path string, visit func(om OM, path string))
+	walk = func(v any, path string, visit func(om OM, path string)) {
+		switch x := v.(type) {
+		case OM:
+			visit(x, path)
+			for _, kv := range x {
+				walk(kv.V, path+"/"+kv.K, visit)
+			}
+		case []any:
+			for i, e := range x {
+				walk(e, fmt.Sprintf("%s[%d]", path, i), visit)
+			}
+		}
+	}
+	var sites []string
+	walk(parseOrdered([]byte(text)), "", func(om OM, path string) {
+		for _, kv := range om {
+			sites = append(sites, path+"/"+kv.K)
+		}
+	})
+	for _, target := range sites {
+		doc := parseOrdered([]byte(text))
+		var strip func(v any, path string) any
+		strip = func(v any, path string) any {
+			switch x := v.(type) {
+			case OM:
+				out := OM{}
+				for _, kv := range x {
+					if path+"/"+kv.K == target {
+						continue
+					}
+					out = append(out, KV{kv.K, strip(kv.V, path+"/"+kv.K)})
+				}
+				return out
+			case []any:
+				out := make([]any, len(x))
+				for i, e := range x {
+					out[i] = strip(e, fmt.Sprintf("%s[%d]", path, i))
+				}
+				return out
+			}
+			return v
+		}
+		var bb bytes.Buffer
+		emitJSON(&bb, strip(doc, ""), "", "")
+		muts = append(muts, bb.String())
+		descs = append(descs, "drop:"+target)
+	}
+	return
+}
+
 func mutateDoc(r *Rng, text string) (string, string, bool) {
 	js := []byte(text)
 	if !json.Valid(js) {
@@ -382,6 +438,10 @@ func enumHostile(r *Rng, text string) (muts []string, descs []string) {
 		muts = append(muts, bb.String())
 		descs = append(descs, fmt.Sprintf("slot%d:=%s", i, d))
 	}
+	// and every key removed, one at a time
+	dm, dd := dropKeyVariants(text)
+	muts = append(muts, dm...)
+	descs = append(descs, dd...)
 	return
 }
 
